@@ -21,12 +21,14 @@ BadOp(o) == \E k \in 1..Len(o.items) : IsBad(o.items[k][2])
 SpecStep(before, o) ==
   IF BadOp(o) THEN before
   ELSE CASE o.op \in {"new", "update"} -> AfterCallSpec(before, Items(o))
+         [] o.op = "clone" -> before       \* a tag built from another tag's attribute map has the same attributes
          [] o.op = "setitem" -> IF Dropped(o.items[1][2]) THEN before
                                 ELSE Put(before, NormName(o.items[1][1]), Norm(o.items[1][2]))
          [] o.op = "add"    -> AfterCallSpec(before, << <<o.items[1][1], Stored(before, o.items[1][1])>>, It(o.items[1]) >>)
          [] o.op = "addpre" -> AfterCallSpec(before, << It(o.items[1]), <<o.items[1][1], Stored(before, o.items[1][1])>> >>)
 CodeStep(before, o) ==
   CASE o.op \in {"new", "update"} -> Update(before, Items(o)).attrs
+    [] o.op = "clone" -> before
     [] o.op = "setitem" -> SetItem(before, o.items[1][1], o.items[1][2]).attrs
     [] o.op = "add"     -> AddVia(before, o.items[1][1], o.items[1][2], FALSE).attrs
     [] o.op = "addpre"  -> AddVia(before, o.items[1][1], o.items[1][2], TRUE).attrs
@@ -57,6 +59,8 @@ Clauses(e) ==
                    \A i \in 1..n : ~BadOp(e.hist[i]) => NamesOk(ss[i], e.obs[i].attrs)>>,
                <<"C15:ValuesJoinedInArgumentOrderLaterCallsReplace",
                    \A i \in 1..n : ~BadOp(e.hist[i]) => AttrsOk(ss[i], e.obs[i].attrs)>>,
+               \* a tag's attributes are a function of the calls made on THAT tag
+               <<"C15:AttributesChangeOnlyThroughTheirOwnTag", \A i \in 1..n : e.obs[i].othersSame>>,
                <<"C03:AttributeNamesOnTag", Len(e.tok) = Len(final) /\ \A i \in 1..Len(final) : e.tok[i].n = final[i].n>>,
                <<"C03:ValueInert", Len(e.tok) = Len(final) =>
                    \A i \in 1..Len(final) : Match(final[i].v.ch, final[i].v.md, e.tok[i].seg, AttrSpecials) = 0>>,
